@@ -11,7 +11,8 @@ def run(tier, replay=None):
               "explicit segment lists per AdaptationSet (SegmentTimeline entries, or SegmentTemplate@duration expanded by the DASH rules over "
               "the time-shift window), every listed segment fetched through the URL derived from its MPD; scenario = (asset / MPD incl. "
               "thumbnail and subtitle AdaptationSets and variable-duration layouts, MPD type Number/segtimeline/segtimelinenr, P from 1..60, "
-              "120..3600 accepted for the asset + P that must be refused, continuous_1 on/off, tsbd, snr, availabilityStartTime 0 / 1000 / 3600 / 2023); the three MPD types of one (asset, P) are requested one after the other on one long-running "
+              "120..3600 accepted for the asset + P that must be refused, continuous_1 on/off, tsbd, startNumber option none / snr_0 / snr_1 / snr_7 / snr_-1 (no attribute = the DASH default 1), generated "
+              "subtitle AdaptationSets timesubsstpp_/timesubswvtt_ with 1-2 languages, availabilityStartTime 0 / 1000 / 3600 / 2023); the three MPD types of one (asset, P) are requested one after the other on one long-running "
               "server in an order rotating over all six permutations, and every scenario is visited a second time in reverse order (history); "
               "P includes values that do not divide 3600 (period grid off the hour grid) with period numbers up to P+1 and beyond; instants: near "
               "availabilityStartTime, period boundary / window edge / loop wrap and their coincidences (multiples of lcm(PD, loop)) -1/0/+1 ms, "
@@ -25,6 +26,9 @@ def run(tier, replay=None):
         "when not requested no AdaptationSet may signal it",
         "C06.pt (Number mode publishTime = start of the last period) follows the property's anchor 'publishTime in multi-period Number mode' and DESIGN.md",
         "a segment URL is compared only where the single-period URL is answered 200",
+        "every AdaptationSet present in the single-period MPD (audio, video, VoD text / image, generated subtitles) is judged in every period by the same clauses; "
+        "an absent SegmentTemplate@startNumber is read as 1; the tie between declared media time and the tfdt of the delivered segment is relative "
+        "(same bytes as through the single-period URL), the absolute tie is C02's",
         "C06.history: the property quantifies over histories; besides judging every answer by all clauses, the acceptance (200 / refused) of the same "
         "URL at the same instant must be the same in both passes over one server",
         "availabilityStartTime != 0 (start_): the text does not say whether the period grid is anchored at availabilityStartTime or at the epoch; C06.tile accepts "
